@@ -43,6 +43,54 @@ def run(ctx, F, cg):
             ctx.ok("R06j", "finish_bulk_load|compaction", "compaction reached on every path")
         else:
             ctx.violation("R06j", "finish_bulk_load|compaction|conditional", where(fb), "finish_bulk_load can return without compacting the write buffer")
+    # ---- R06m: a slice that is binary-searched is sorted ----------------------------------------------------------
+    ctx.rule("R06m", "a neighbour list handed to a binary search is sorted as a whole: a producer that concatenates several individually sorted runs in a loop (one per frozen segment) must sort the result on every path to its return when a consumer binary-searches it (edge_between / edges_between through search_adjacency_slice) — after a second compaction the concatenation [5,6,7 | 1] is searched for 1 and the live relationship is not found")
+    IDENT_ = ("deref", "as_slice", "as_ref", "borrow", "index", "clone", "to_vec", "as_deref", "unwrap_or", "unwrap_or_default")
+    searchers = {}      # fn path -> param indexes that reach a binary_search* receiver
+    for p_, r_ in F.fns.items():
+        if not p_.startswith("samyama::graph::store::") or "{closure" in p_ or not any("binary_search" in c for c in r_["calls"]):
+            continue
+        bb_ = Body(F.mir(p_), r_)
+        for c in bb_.calls():
+            if "binary_search" in c.path.rsplit("::", 1)[-1] and c.args and c.args[0][0] != "k":
+                og = bb_.origins(c.args[0][1][0], through_calls=lambda cc: [0] if cc.path.rsplit("::", 1)[-1] in IDENT_ else None)
+                for o in og:
+                    if o[0] == "arg":
+                        searchers.setdefault(p_, set()).add(o[1])
+    ctx.floor("R06m", "store functions that binary-search a slice parameter", len(searchers), 1)
+    n_flows = 0
+    reported = set()
+    for p_, r_ in sorted(F.fns.items()):
+        if not p_.startswith("samyama::graph::store::") or not any(c in searchers for c in r_["calls"]):
+            continue
+        bb_ = Body(F.mir(p_), r_)
+        for c in bb_.calls():
+            if c.path not in searchers:
+                continue
+            for ai in searchers[c.path]:
+                if ai - 1 >= len(c.args) or c.args[ai - 1][0] == "k":
+                    continue
+                og = bb_.origins(c.args[ai - 1][1][0], through_calls=lambda cc: [0] if cc.path.rsplit("::", 1)[-1] in IDENT_ else None)
+                for o in og:
+                    if o[0] != "call" or o[1].path not in F.fns or not o[1].path.startswith("samyama::graph::store::"):
+                        continue
+                    prod = o[1].path
+                    n_flows += 1
+                    pb = Body(F.mir(prod), F.fns[prod])
+                    ctx.saw_fn(prod, p_)
+                    loops = [x for x in pb.calls() if x.path.rsplit("::", 1)[-1] in ("extend_from_slice", "extend", "append", "push") and x.bb in pb.reach_after(x.bb)]
+                    sorts = {x.bb for x in pb.calls() if x.path.rsplit("::", 1)[-1].startswith("sort")}
+                    short = prod.replace("samyama::graph::store::", "")
+                    cons = p_.replace("samyama::graph::store::", "")
+                    bad_ = [x for x in loops if not all(pb.must_pass(x.bb, rb, sorts) for rb in pb.ret_blocks())]
+                    if bad_:
+                        key = "%s|concat-unsorted|%s" % (short, cons)
+                        if key not in reported:
+                            reported.add(key)
+                            ctx.violation("R06m", key, where(F.fns[prod], bad_[0].line), "%s concatenates one sorted run per segment in a loop and returns the result unsorted; %s hands it to %s, which binary-searches it: with two or more frozen segments a live relationship whose neighbour sorts before the first segment's entries is not found" % (short, cons, c.path.rsplit("::", 1)[-1]))
+                    else:
+                        ctx.ok("R06m", "%s|%s" % (short, cons), "result is a single run or is sorted before it is returned")
+    ctx.floor("R06m", "producer results flowing into a binary search", n_flows, 2)
     ctx.rule("R06l", "every relationship creator links the new relationship into both adjacency directions on every path to Ok")
     sr.creators_link_on_every_path(ctx, F, cg, "R06l")
     ctx.rule("R06k", "(shared with C05) a store mutator that fails has changed nothing — in particular it has not handed an id back to the allocator: an id freed by a failed delete is allocated twice")
